@@ -1364,8 +1364,8 @@ func (f *fragment) rangeLT(bitDepth uint, predicate int64, allowEquality bool) (
 		upredicate = uint64(-predicate)
 	}
 
-	// If predicate is positive, return all positives less than predicate and all negatives.
-	if (predicate >= 0 && allowEquality) || (predicate >= -1 && !allowEquality) {
+	// If predicate is positive (or LTE zero), return all positives less than predicate and all negatives.
+	if predicate > 0 || (predicate == 0 && allowEquality) {
 		pos, err := f.rangeLTUnsigned(b.Difference(f.row(bsiSignBit)), bitDepth, upredicate, allowEquality)
 		if err != nil {
 			return nil, err
@@ -1433,8 +1433,8 @@ func (f *fragment) rangeGT(bitDepth uint, predicate int64, allowEquality bool) (
 		upredicate = uint64(-predicate)
 	}
 
-	// If predicate is positive, return all positives greater than predicate.
-	if (predicate >= 0 && allowEquality) || (predicate >= -1 && !allowEquality) {
+	// If predicate is positive or zero, return all positives greater than predicate.
+	if predicate >= 0 {
 		return f.rangeGTUnsigned(b.Difference(f.row(bsiSignBit)), bitDepth, upredicate, allowEquality)
 	}
 
